@@ -109,7 +109,7 @@ def _cases_for(tier, method, rng):
         for e in must + rng.sample(rest, 6):
             cases.append(['raise', e])
     else:
-        for e in EXCS * 2:
+        for e in EXCS:
             cases.append(['raise', e])
     flav = ['call', 'raise', 'nested']
     if quick:
@@ -131,9 +131,11 @@ def _cases_for(tier, method, rng):
         early = [['kill', 'SIGKILL'], ['kill', 'SIGTERM'], ['terminate', 'SIGTERM'],
                  ['terminate', 'SIGTERM']]
     else:
-        for s in allsigs * 2:
+        for s in allsigs:
             cases.append(['selfsig', s])
             cases.append(['extsig', s])
+        for s in rng.sample(allsigs, 8):
+            cases.append([rng.choice(['selfsig', 'extsig']), s])
         cases += [['abort', None]] * 3
         early = [['kill', 'SIGKILL'], ['kill', 'SIGTERM'],
                  ['terminate', 'SIGTERM']] * 6
@@ -157,15 +159,15 @@ def plan(tier, seed):
                           'cases': cases[i:i + per]})
             k += 1
     for method in METHODS:
-        n = 2 if tier == 'quick' else 6
+        n = 2 if tier == 'quick' else 4
         for j in range(n):
-            specs.append({'mode': 'foreign', 'method': method, 'api': apis[j % 3],
+            specs.append({'mode': 'foreign', 'method': method, 'api': apis[j % 2],
                           'seed': seed * 100000 + 5000 + k,
                           'rounds': 1 if tier == 'quick' else 2})
             k += 1
             specs.append({'mode': 'mt', 'method': method, 'api': 'ctx',
                           'seed': seed * 100000 + 6000 + k,
-                          'rounds': 4 if tier == 'quick' else 8})
+                          'rounds': 4 if tier == 'quick' else 6})
             k += 1
     # longest specs first
     order = {'foreign': 0, 'mt': 1, 'matrix': 2}
